@@ -44,10 +44,18 @@ def eps_is_dyadic(opts):
     return False
 
 
-def judge(n, info, acc, opts, step, res, labels=True):
-    """Returns None or (desc, replay_case, key)."""
-    run = conv.convert(n, acc, opts)
-    case_obj = dict(model=nl.model_to_obj(n), acc=acc, opts=list(opts), step=str(step),
+LAST = {}
+
+
+def judge(n, info, acc, opts, step, res, labels=True, expect_objs=None, strict_objs=False, fmt="text"):
+    """Returns None or (desc, replay_case, key).
+    expect_objs: indices of the NL objectives expected to be delivered, in order (default: the first one, if any)."""
+    if expect_objs is None:
+        expect_objs = [0] if n.objs else []
+    run = conv.convert(n, acc, opts, fmt=fmt)
+    LAST["run"] = run
+    case_obj = dict(model=nl.model_to_obj(n), acc=acc, opts=list(opts), step=str(step), fmt=fmt,
+                    expect_objs=expect_objs, strict_objs=strict_objs,
                     info=dict(ops=sorted(info['ops']), nbprod=bool(info['nbprod'])))
     tag = []
     if run.sanitizer or run.signal or run.timed_out:
@@ -96,10 +104,11 @@ def judge(n, info, acc, opts, step, res, labels=True):
         return None
     norig = len(n.vars)
     nfeas = ninf = 0
-    have_obj = bool(n.objs)
-    objterm = None
-    if have_obj and fm.objs:
-        objterm = zm.obj_term(fm.objs[0])
+    have_obj = bool(expect_objs)
+    objterms = [zm.obj_term(o) for o in fm.objs]
+    if strict_objs and len(fm.objs) != len(expect_objs):
+        return ("%d objective(s) delivered, %d expected (NL objectives %s); delivered: %s" % (
+            len(fm.objs), len(expect_objs), expect_objs, [(o["i"], o["sense"], o["vars"]) for o in fm.objs]), case_obj, "objective-count")
     for x in pts:
         try:
             a = nl.feasible(n, x)
@@ -121,25 +130,29 @@ def judge(n, info, acc, opts, step, res, labels=True):
                 [str(v) for v in x], a, b, nl.show_model(n), fm.types_delivered()), case_obj,
                 "lost-solution" if a else "extra-solution")
         if a and have_obj:
-            f = nl.obj_value(n.objs[0], x, n)
-            if objterm is None:
-                if f != 0 and not (n.objs[0]["expr"] is None and not n.objs[0]["lin"]):
+            for j, k in enumerate(expect_objs):
+                f = nl.obj_value(n.objs[k], x, n)
+                if j >= len(objterms):
+                    if f != 0 and not (n.objs[k]["expr"] is None and not n.objs[k]["lin"]):
+                        case_obj["point"] = [str(v) for v in x]
+                        return ("NL objective %d is not delivered (only %d objectives delivered)" % (k, len(objterms)), case_obj,
+                                "objective-dropped")
+                    continue
+                objterm = objterms[j]
+                # relaxed oracle: auxiliary values may be off by ~delta, so objective values are compared with a 1e-6 margin
+                tol = F(0) if delta == 0 else F(1, 10**6)
+                r1 = zm.check_point(point, [objterm >= zm.q(f - tol), objterm <= zm.q(f + tol)])
+                better = objterm > zm.q(f + tol) if fm.objs[j]["sense"] == 1 else objterm < zm.q(f - tol)
+                r2 = zm.check_point(point, [better])
+                if "unknown" in (r1, r2):
+                    res.inconclusive += 1
+                    continue
+                if fm.objs[j]["sense"] != n.objs[k]["sense"] or r1 != "sat" or r2 != "unsat":
                     case_obj["point"] = [str(v) for v in x]
-                    return ("NL model has an objective but none was delivered", case_obj, "objective-dropped")
-                continue
-            # relaxed oracle: auxiliary values may be off by ~delta, so objective values are compared with a 1e-6 margin
-            tol = F(0) if delta == 0 else F(1, 10**6)
-            r1 = zm.check_point(point, [objterm >= zm.q(f - tol), objterm <= zm.q(f + tol)])
-            better = objterm > zm.q(f + tol) if fm.objs[0]["sense"] == 1 else objterm < zm.q(f - tol)
-            r2 = zm.check_point(point, [better])
-            if "unknown" in (r1, r2):
-                res.inconclusive += 1
-                continue
-            if fm.objs[0]["sense"] != n.objs[0]["sense"] or r1 != "sat" or r2 != "unsat":
-                case_obj["point"] = [str(v) for v in x]
-                return ("objective mismatch at x=%s: original %s value %s (sense %d); delivered sense %d, value-attainable=%s, "
-                        "better-attainable=%s; model: %s" % ([str(v) for v in x], "obj", f, n.objs[0]["sense"], fm.objs[0]["sense"],
-                                                            r1, r2, nl.show_model(n)), case_obj, "objective-value")
+                    return ("objective mismatch at x=%s: NL objective %d has value %s (sense %d); delivered objective %d: sense %d, "
+                            "value-attainable=%s, better-attainable=%s; model: %s" % (
+                                [str(v) for v in x], k, f, n.objs[k]["sense"], j, fm.objs[j]["sense"], r1, r2, nl.show_model(n)),
+                            case_obj, "objective-value")
     nontrivial = fm.nvars > norig and nfeas > 0 and ninf > 0
     if labels:
         for t in fm.types_delivered():
@@ -226,7 +239,8 @@ def replay(ctx, path):
     n = nl.model_from_obj(c["model"])
     info = dict(ops=set(c.get('info', {}).get('ops', [])), nbprod=c.get('info', {}).get('nbprod', False))
     res = common.Result()
-    v = judge(n, info, c["acc"], c["opts"], F(c.get("step", "1/2")), res, labels=False)
+    v = judge(n, info, c["acc"], c["opts"], F(c.get("step", "1/2")), res, labels=False, expect_objs=c.get("expect_objs"),
+              strict_objs=c.get("strict_objs", False), fmt=c.get("fmt", "text"))
     if v:
         print("VIOLATION property=%s replay=%s" % (ctx.pid, path))
         print("  " + v[0][:800])
